@@ -144,6 +144,18 @@ def oracle(model, stats):
     return _ORACLE[key]
 
 
+def expected_kind(model):
+    """TEXT / exception kind that the current settings must produce (None: no path yet - not fixed here)"""
+    path, entry, safety = model['path'], model['entry'], model['safety']
+    if path is None:
+        return None
+    if path == 'W3' and safety:
+        return 'LIB_EXC:safety'
+    if path == 'WC' and entry != 'e2':
+        return 'LIB_EXC:parser'
+    return 'TEXT'
+
+
 def canon(parser, reused):
     def cell(c):
         return None if c is None else (c.title, c.column, c.row, repr(c.value), c._handled_identifiers)
@@ -186,6 +198,10 @@ def apply_op(parser, reused, model, op, stats, tmpdir):
         got = outcome_of(parser.get_translation)
         exp = oracle(model, stats)
         stats['validated'] += 1
+        kind_wanted = expected_kind(model)
+        if kind_wanted and exp[0] != kind_wanted:
+            # the differential oracle is the same library: what kind of answer the settings deserve is fixed by hand
+            return {'clause': 'oracle_kind', 'expected': kind_wanted, 'got': _brief(exp)}
         if got != exp:
             return {'clause': 'stale' if got[0] == 'TEXT' and exp[0] == 'TEXT' else 'outcome', 'expected': _brief(exp),
                     'got': _brief(got)}
